@@ -256,6 +256,17 @@ def run(ctx):
             det = f"reaches {prims}"
         ctx.ob("R5.storage-strategies", selfty, ok, b.loc(), det)
 
+    # endpoint layer: nothing but release_event after the sender's finishing transition returned
+    from .c07 import endpoint_no_use_after_finish
+    endpoint_no_use_after_finish(ctx, prog, "R3.no-access-after-handover", "events_once::core::sync::Event::")
+
+    # ---------------- rules shared with C05 (anchored in the same functions of core/sync.rs)
+    ctx.import_rules("C05", {
+        "R7.transition-table": "the storage is released exactly once only while both endpoints follow the protocol's transitions: a store where a compare-exchange is required overwrites the peer's transition and then neither endpoint (or both) releases",
+        "R9.transition-on-every-path": "an endpoint that leaves without a transition never tells the peer that it may release",
+        "R10.weak-cas-only-in-retry-loop": "a spurious failure taken for a real one sends the endpoint down an arm that releases (or leaks) on the strength of a state that was never there",
+    })
+
 
 def short(k):
     return k.replace("events_once::", "")
